@@ -29,6 +29,8 @@ class ScalesSocket(object):
       try:
         self.handle.connect(res[4])
       except socket.error as e:
+        self.handle.close()
+        self.handle = None
         if res is not resolved[-1]:
           continue
         else:
